@@ -23,7 +23,7 @@ RULE = ("Hypothesis-generated small forms (text profile) in which every text-bea
         "non-trivial = a checked cell contains an XML metacharacter, an entity/CDATA/comment fragment or a non-BMP character; "
         "distinct by SHA-1 of the case JSON")
 ASSUMPTIONS = ["documented normalisations only: survey cells stripped + space runs collapsed + smart quotes straightened; attribute-carried "
-               "text modulo XML attribute-value normalisation; mixed text+output may gain one boundary space",
+               "text exactly (TAB/LF/CR included); mixed text+output may gain one boundary space",
                "static-default channel alphabet omits the characters that make a default an expression (C10 owns those)"]
 BUDGET = {"quick": 12000, "thorough": 400000}
 REQUIRED_LABELS = ["channel:label", "channel:hint", "channel:guidance", "channel:jr:constraintMsg", "channel:jr:requiredMsg", "channel:choice-label",
@@ -51,11 +51,11 @@ def _cases(draw):
             n["c"]["appearance"] = g.adv(allow_ws_ctl=False)
     s = form.setdefault("settings", {})
     if g.p("_", 0.6):
-        s["style"] = g.adv(allow_ws_ctl=False)
+        s["style"] = g.adv()
     if g.p("_", 0.7):
         s["attribute::plain"] = g.adv()
     if g.p("_", 0.7):
-        s["version"] = g.adv(allow_ws_ctl=False)
+        s["version"] = g.adv()
     return {"form": form}
 
 
@@ -98,7 +98,8 @@ def benign(form):
 
 
 def attr_norm(s):
-    return s.replace("\t", " ").replace("\n", " ").replace("\r", " ")
+    """attribute-carried text must come back as typed: a writer has to use character references for TAB/LF/CR"""
+    return s
 
 
 def evaluate(case) -> Outcome:
